@@ -30,10 +30,10 @@ variable {γ : Type} {C : GClass γ} (S : GSem C)
 theorem readDimacsBody_some {rows : List DRow} {G : γ} {m : Int} {cnt : Nat} {st : DSt γ} (h : S.Inv G)
     (e : readDimacsBody C ⟨some G, m, cnt⟩ rows = .ok st) :
     ∃ G', st.G = some G' ∧ st.m = m ∧ st.cnt = cnt + (dimacsEdges rows).length ∧ dimacsProbs rows = [] ∧
-      S.Inv G' ∧ C.order G' = C.order G ∧
+      S.Inv G' ∧ C.order G' = C.order G ∧ (∀ x ∈ dimacsPairs rows, S.Valid (C.order G) x.1 x.2) ∧
       ∀ p, p ∈ S.E G' ↔ (p ∈ S.E G ∨ ∃ x ∈ dimacsPairs rows, S.contrib x.1 x.2 p) := by
   induction rows generalizing G cnt with
-  | nil => simp only [readDimacsBody] at e; cases e; exact ⟨G, rfl, rfl, rfl, rfl, h, rfl, by simp [dimacsPairs, dimacsEdges]⟩
+  | nil => simp only [readDimacsBody] at e; cases e; exact ⟨G, rfl, rfl, rfl, rfl, h, rfl, by simp [dimacsPairs, dimacsEdges], by simp [dimacsPairs, dimacsEdges]⟩
   | cons r rs ih =>
     cases r with
     | blank => simpa [dimacsEdges, dimacsProbs, dimacsPairs] using ih h (by simpa [readDimacsBody] using e)
@@ -50,14 +50,19 @@ theorem readDimacsBody_some {rows : List DRow} {G : γ} {m : Int} {cnt : Nat} {s
         | error x => rw [ha] at e; cases e
         | ok G₁ =>
           rw [ha] at e
-          obtain ⟨_, hi, ho, hm⟩ := S.add_ok h ha
-          obtain ⟨G', h1, h2, h3, h4, h5, h6, h7⟩ := ih hi e
+          obtain ⟨hv, hi, ho, hm⟩ := S.add_ok h ha
+          obtain ⟨G', h1, h2, h3, h4, h5, h6, hv', h7⟩ := ih hi e
           refine ⟨G', h1, h2, by rw [h3]; simp [dimacsEdges]; omega, by simpa [dimacsProbs] using h4, h5,
-            by rw [h6, ho], ?_⟩
-          intro p
-          rw [h7, hm]
-          simp only [dimacsPairs, dimacsEdges, List.filterMap_cons, id, List.mem_cons, exists_eq_or_imp,
-            or_assoc]
+            by rw [h6, ho], ?_, ?_⟩
+          · intro x hx
+            simp only [dimacsPairs, dimacsEdges, List.filterMap_cons, id, List.mem_cons] at hx
+            rcases hx with rfl | hx
+            · exact hv
+            · rw [← ho]; exact hv' x hx
+          · intro p
+            rw [h7, hm]
+            simp only [dimacsPairs, dimacsEdges, List.filterMap_cons, id, List.mem_cons, exists_eq_or_imp,
+              or_assoc]
 
 omit S in
 theorem readDimacsBody_err {rows : List DRow} {st : DSt γ} {x : Err}
@@ -95,6 +100,7 @@ theorem readDimacsBody_none {rows : List DRow} {m0 : Int} {cnt0 : Nat} {st : DSt
     (st.G = none ∧ st.m = m0 ∧ st.cnt = cnt0) ∨
     ∃ n m G', dimacsProbs rows = [some (n, m)] ∧ 0 ≤ n ∧ st.G = some G' ∧ st.m = m ∧
       st.cnt = cnt0 + (dimacsEdges rows).length ∧ S.Inv G' ∧ C.order G' = n.toNat ∧
+      (∀ x ∈ dimacsPairs rows, S.Valid n.toNat x.1 x.2) ∧
       ∀ p, p ∈ S.E G' ↔ ∃ x ∈ dimacsPairs rows, S.contrib x.1 x.2 p := by
   induction rows with
   | nil => simp only [readDimacsBody] at e; cases e; exact Or.inl ⟨rfl, rfl, rfl⟩
@@ -113,13 +119,15 @@ theorem readDimacsBody_none {rows : List DRow} {m0 : Int} {cnt0 : Nat} {st : DSt
         split at e
         · cases e
         · rename_i hn
-          obtain ⟨G', h1, h2, h3, h4, h5, h6, h7⟩ := readDimacsBody_some S (S.init_inv n.toNat) e
+          obtain ⟨G', h1, h2, h3, h4, h5, h6, hv, h7⟩ := readDimacsBody_some S (S.init_inv n.toNat) e
           right
           refine ⟨n, m, G', by simp [dimacsProbs, h4], by omega, h1, h2, by simpa [dimacsEdges] using h3, h5,
-            by rw [h6, S.init_order], ?_⟩
-          intro p
-          rw [h7, S.init_E]
-          simp [dimacsPairs, dimacsEdges]
+            by rw [h6, S.init_order], ?_, ?_⟩
+          · rw [S.init_order] at hv
+            simpa [dimacsPairs, dimacsEdges] using hv
+          · intro p
+            rw [h7, S.init_E]
+            simp [dimacsPairs, dimacsEdges]
 
 /-- T-C14.2 for `_read_graph_dimacs_format`: the only exception is ValueError; an accepted text
 has exactly one problem line `p edge n m`, placed before every edge line, `m` is the number of
@@ -128,7 +136,7 @@ theorem readDimacs_contract (rows : List DRow) :
     (∀ x, readDimacs C rows = .error x → x = .valueError) ∧
     (∀ G, readDimacs C rows = .ok G → ∃ n : Int, 0 ≤ n ∧
       dimacsProbs rows = [some (n, ((dimacsEdges rows).length : Int))] ∧
-      S.Inv G ∧ C.order G = n.toNat ∧
+      S.Inv G ∧ C.order G = n.toNat ∧ (∀ x ∈ dimacsPairs rows, S.Valid n.toNat x.1 x.2) ∧
       ∀ p, p ∈ S.E G ↔ ∃ x ∈ dimacsPairs rows, S.contrib x.1 x.2 p) := by
   unfold readDimacs
   cases hb : readDimacsBody C ⟨none, -1, 0⟩ rows with
@@ -148,7 +156,7 @@ theorem readDimacs_contract (rows : List DRow) :
       split at e
       · cases e
       · rename_i hm
-        rcases readDimacsBody_none S hb with ⟨_, h2, h3⟩ | ⟨n, m, G', h1, h2, h3, h4, h5, h6, h7, h8⟩
+        rcases readDimacsBody_none S hb with ⟨_, h2, h3⟩ | ⟨n, m, G', h1, h2, h3, h4, h5, h6, h7, hv, h8⟩
         · rw [h2, h3] at hm; simp at hm
         · rw [h3] at e
           simp only [Except.ok.injEq] at e
@@ -156,7 +164,7 @@ theorem readDimacs_contract (rows : List DRow) :
           have : m = ((dimacsEdges rows).length : Int) := by
             have := Classical.not_not.1 hm
             rw [h4, h5] at this; simpa using this
-          exact ⟨n, h2, by rw [h1, this], h6, h7, h8⟩
+          exact ⟨n, h2, by rw [h1, this], h6, h7, hv, h8⟩
 
 end
 
